@@ -276,6 +276,18 @@ def rdispatch(tag, status, payload, contexts=()):
   return mux_frame(R_DISPATCH, tag, body + payload)
 
 
+def adversarial_hit(r):
+  """True if the peer sent an unsolicited frame naming r's tag that the client
+  received after writing r (it may have crossed r on the wire): from the
+  client's point of view that frame answered r."""
+  st = r.conn.state or {}
+  lat = r.conn.ep.latency
+  for when, tag in st.get('adv_sent', ()):
+    if tag == r.tag and when >= r.at - 3 * lat - 3e-3:
+      return True
+  return False
+
+
 class MuxServer(BaseServer):
   """ThriftMux peer.  Honest by default (answers by tag, independent delays);
   adversarial extras are requested through the behaviour spec."""
@@ -390,11 +402,16 @@ class MuxServer(BaseServer):
     else:
       conn.server_send(out, 0.0)
     extra = spec.get('adversarial')
-    if extra == 'duplicate':
-      conn.server_send(out, 0.0005)
-    elif extra == 'unknown_tag':
-      conn.server_send(rdispatch(spec.get('adv_tag', 7777), ST_NACK, b''), 0.0)
-    elif extra == 'reserved_tag':
-      conn.server_send(rdispatch(spec.get('adv_tag', 1), ST_NACK, b''), 0.0)
-    elif extra == 'tag0':
-      conn.server_send(rdispatch(0, ST_NACK, b''), 0.0)
+    if extra:
+      adv = {'duplicate': r.tag, 'tag0': 0}.get(extra, spec.get('adv_tag', 1))
+      # whatever request currently holds that tag is thereby answered
+      victim = st['unanswered'].pop(adv, None)
+      if victim is not None:
+        victim.reply_kind = 'adversarial'
+        victim.answered_at = CLOCK.now
+      st.setdefault('adv_sent', []).append((CLOCK.now, adv))
+      self.loop.note('srv%d.adversarial' % self.endpoint.index, '%s tag=%d' % (extra, adv))
+      if extra == 'duplicate':
+        conn.server_send(out, 0.0)
+      else:
+        conn.server_send(rdispatch(adv, ST_NACK, b''), 0.0)
